@@ -24,13 +24,23 @@ Cases ==
     \cup [kind : {"absent", "emptydir", "foreign"}, creator : {[net |-> "regtest", traces |-> FALSE]}, opener : Configs,
           tamper : {"none"}, fill : {"empty"}]
 
+(* what the directory SAYS after the tampering - the gate can only judge by that.  A deleted row is missing; an altered  *)
+(* version or network row holds a value no build / no opener has; an altered trace row holds the opposite flag.          *)
+RowsPresent(c)    == c.tamper \notin {"del_" \o r : r \in Rows}
+VersionsIntact(c) == c.tamper \notin {"alt_DB_VERSION", "alt_PROTOCOL_VERSION"}
+NetIntact(c)      == c.tamper # "alt_BITCOIN_RPC_NETWORK"
+RecordedTraces(c) == IF c.tamper = "alt_EVM_RECORD_TRACES" THEN ~c.creator.traces ELSE c.creator.traces
+RecordedEqualsOpener(c) ==
+  RowsPresent(c) /\ VersionsIntact(c) /\ NetIntact(c) /\ RecordedTraces(c) = c.opener.traces /\ c.creator.net = c.opener.net
+
 Expected(c) ==
   CASE c.kind \in {"absent", "emptydir"} -> "starts"
     [] c.kind = "foreign" -> "fails"
     [] OTHER ->
-         IF c.tamper # "none" THEN "fails"
-         ELSE IF c.creator = c.opener THEN "starts_same_state"
-         ELSE IF c.creator.traces = c.opener.traces /\ SameNet(c.creator.net, c.opener.net) THEN "either"
+         IF ~(RowsPresent(c) /\ VersionsIntact(c) /\ NetIntact(c)) THEN "fails"
+         ELSE IF RecordedTraces(c) # c.opener.traces THEN "fails"
+         ELSE IF c.creator.net = c.opener.net THEN (IF c.tamper = "none" THEN "starts_same_state" ELSE "either")  \* a forged row the gate cannot tell from a true one
+         ELSE IF SameNet(c.creator.net, c.opener.net) THEN "either"
          ELSE "fails"
 
 VARIABLES case, outcome
@@ -51,7 +61,10 @@ Spec == Init /\ [][Next]_vars
 (* C20: it starts only if the directory is fresh or the recorded configuration is intact and equal *)
 StartsOnlyIfSame ==
   (case.kind # "none" /\ outcome \in {"starts", "starts_same_state"}) =>
-     (case.kind \in {"absent", "emptydir"} \/ (case.tamper = "none" /\ case.creator = case.opener))
+     (case.kind \in {"absent", "emptydir"} \/ RecordedEqualsOpener(case))
+(* an intact directory never opens under another configuration than its creator's *)
+IntactOnlyUnderCreator ==
+  (case.kind = "created" /\ case.tamper = "none" /\ outcome \in {"starts", "starts_same_state"}) => case.creator = case.opener
 IdenticalAlwaysReopens ==
   (case.kind = "created" /\ case.tamper = "none" /\ case.creator = case.opener) => outcome = "starts_same_state"
 =============================================================================
